@@ -819,11 +819,18 @@ func doConfig(weights []int, sels []int, rich bool, opsLen int, style int, class
 type lrun struct {
 	segs     []*lseg
 	fails    map[int]bool
+	xfails   map[int]bool // Connect succeeds, the peer hangs up: the exchange fails
+	xfailNow bool
+	cfailed  bool         // the attempt in progress failed at Connect
+	xfailed  bool         // ... or in the exchange (an Error line of the Session's log)
+	outs     [][2]bool    // per attempt: (Connect failed, exchange failed)
 	closeAt  int
 	swapAt   int // Connect index at which segment 1 is stored in s.swap (-1: never)
 	sess     *c2.Session
 	ready    chan struct{}
 	events   [][4]int64
+	flagBad    []string
+	flagMissed bool
 	lastConn int64
 	lastHost int64   // the last non-empty host any Next() handed out
 	handed   []int64 // lastHost at each Connect
@@ -868,7 +875,31 @@ type spy struct {
 	seg *lseg
 }
 
+// xlog is the client Session's log: every `return false` of Session.session writes an Error line.
+type xlog struct {
+	logx.Log
+	r *lrun
+}
+
+func (l xlog) Error(m string, _ ...interface{}) {
+	if strings.Contains(m, "Error attempting to write Packet") || strings.Contains(m, "Error attempting to read Packet") ||
+		strings.Contains(m, "Error processing packet data") || strings.Contains(m, "sync failed") {
+		l.r.xfailed = true
+	}
+}
+
 func (p spy) Switch(e bool) bool {
+	r := p.r
+	// the attempt before this pass is over: its outcome, and the flag listen derives from it
+	r.outs = append(r.outs, [2]bool{r.cfailed, r.xfailed})
+	if want := r.cfailed || r.xfailed; want != e {
+		r.flagBad = append(r.flagBad, fmt.Sprintf("pass %d: attempt %d %s, Switch was called with e=%v", len(r.outs), len(r.outs)-1,
+			map[bool]string{true: "FAILED (connect failed=" + fmt.Sprint(r.cfailed) + ", exchange failed=" + fmt.Sprint(r.xfailed) + ")", false: "succeeded"}[want], e))
+		if want {
+			r.flagMissed = true
+		}
+	}
+	r.cfailed, r.xfailed = false, false
 	dbg("  switch(%v) %s", e, time.Now().Format("05.000"))
 	calls = nil
 	v := p.Profile.Switch(e)
@@ -897,11 +928,12 @@ func (p spy) Connect(x context.Context, a string) (net.Conn, error) {
 		<-r.ready
 		w, t = c2.VerifC17Held(r.sess)
 	}
-	r.failNow, r.lastConn = r.fails[idx], -1
+	r.failNow, r.xfailNow, r.lastConn = r.fails[idx], r.xfails[idx] && idx > 0, -1
 	if idx > r.closeAt+3 {
 		r.over, r.failNow = true, true
 	}
 	c, err := p.Profile.Connect(x, a)
+	r.cfailed = err != nil
 	dbg("  connect %d err=%v %s", idx, err, time.Now().Format("05.000"))
 	r.events = append(r.events, [4]int64{r.lastConn, hostID(a), wrapObs(w), transObs(t)})
 	r.handed = append(r.handed, r.lastHost)
@@ -928,7 +960,30 @@ func (d dialConn) Connect(x context.Context, _ string) (net.Conn, error) {
 	if lcur.failNow {
 		return nil, errScript
 	}
+	if lcur.xfailNow {
+		return com.TCP.Connect(x, hangAddr) // accepts, then hangs up: the exchange fails
+	}
 	return com.TCP.Connect(x, d.addr)
+}
+
+// hangAddr: a peer that accepts every connection and hangs up at once.
+var hangAddr string
+
+func startHangup() {
+	l, err := net.Listen("tcp", "127.0.0.1:0")
+	if err != nil {
+		panic("harness: hang-up listener: " + err.Error())
+	}
+	hangAddr = l.Addr().String()
+	go func() {
+		for {
+			c, err := l.Accept()
+			if err != nil {
+				return
+			}
+			c.Close()
+		}
+	}()
 }
 
 func listenerFor(sp *spec) string {
@@ -988,7 +1043,10 @@ func buildSeg(specs []*spec, class string, desc map[string]interface{}) *lseg {
 			}
 		}
 		if found == nil || len(sg.order) != i+1 {
-			panic("harness: consumer scenarios need pairwise different weights")
+			// the scenarios use pairwise different weights: this is a Build that did not keep them
+			desc["position"], desc["stored_weight"] = i, w
+			out.Fail("the entries of the built Group do not carry the weights of the configured groups", "weight-mismatch", desc)
+			return nil
 		}
 		sg.ents = append(sg.ents, found)
 		cfg.VerifGroupSetConn(g, i, dialConn{id: found.connID(), addr: listenerFor(found)})
@@ -1049,6 +1107,10 @@ var lscens []*lscen
 // the sessions run afterwards, from runPrepared: Server.Listen is not safe to call while the
 // server is handling connections (unlocked map access in ListenContext).
 func runListen(segSpecs [][]*spec, fails map[int]bool, closeAt, swapAt int, class string) {
+	runListenX(segSpecs, fails, nil, closeAt, swapAt, class)
+}
+
+func runListenX(segSpecs [][]*spec, fails, xfails map[int]bool, closeAt, swapAt int, class string) {
 	var sj []interface{}
 	for _, ss := range segSpecs {
 		var one []interface{}
@@ -1063,8 +1125,14 @@ func runListen(segSpecs [][]*spec, fails map[int]bool, closeAt, swapAt int, clas
 			fl = append(fl, i)
 		}
 	}
-	desc := map[string]interface{}{"profiles": sj, "failing_connects": fl, "close_at_connect": closeAt, "swap_at_connect": swapAt}
-	r := &lrun{fails: fails, closeAt: closeAt, swapAt: swapAt, ready: make(chan struct{})}
+	var xl []int
+	for i := 0; i <= closeAt+1; i++ {
+		if xfails[i] {
+			xl = append(xl, i)
+		}
+	}
+	desc := map[string]interface{}{"profiles": sj, "failing_connects": fl, "failing_exchanges_after_successful_connect": xl, "close_at_connect": closeAt, "swap_at_connect": swapAt}
+	r := &lrun{fails: fails, xfails: xfails, closeAt: closeAt, swapAt: swapAt, ready: make(chan struct{})}
 	for _, ss := range segSpecs {
 		sg := buildSeg(ss, class, desc)
 		if sg == nil {
@@ -1085,9 +1153,9 @@ func runPrepared(sc *lscen) {
 	b[0] |= 1
 	copy(local.UUID[:], b)
 	ctx, cancel := context.WithCancel(context.Background())
-	var clog logx.Log = logx.NOP
+	var clog logx.Log = xlog{Log: logx.NOP, r: r}
 	if os.Getenv("C17_DEBUG") == "2" {
-		clog = logx.Writer(os.Stderr, logx.Trace)
+		clog = xlog{Log: logx.Writer(os.Stderr, logx.Trace), r: r}
 	}
 	s, err := c2.ConnectContext(ctx, clog, spy{Profile: r.segs[0].g, r: r, seg: r.segs[0]})
 	local.UUID = old
@@ -1108,6 +1176,19 @@ func runPrepared(sc *lscen) {
 	cancel()
 	if r.over {
 		out.Fail("the client kept connecting after Close()", "consumer-scenario-overrun", desc)
+	}
+	// oracle: the flag handed to Switch is "the previous attempt failed, at Connect or in the exchange"
+	if len(r.flagBad) > 0 {
+		d2 := map[string]interface{}{}
+		for k, v := range desc {
+			d2[k] = v
+		}
+		d2["flag_mismatches"] = r.flagBad
+		if r.flagMissed {
+			out.Fail("an attempt failed but the next pass called Switch(false): the failure was not reported to the profile", "consumer-failure-not-reported-to-switch", d2)
+		} else {
+			out.Fail("Switch(true) was called although the previous attempt succeeded", "consumer-failure-reported-without-one", d2)
+		}
 	}
 	// oracle: every Connect goes through the active group's connector holding THAT group's wrapper
 	// and transform, to one of its hosts -- or, when it names none, to the last host any group handed out
@@ -1153,12 +1234,17 @@ func runPrepared(sc *lscen) {
 			ss = append(ss, sg.coq())
 		}
 	}
-	out.Add(fmt.Sprintf("CListen %s %s", vh.List(ss), vh.List(evs)), class, len(r.events) >= 3 && moved >= 1, desc)
+	var os2 []string
+	for _, o := range r.outs {
+		os2 = append(os2, fmt.Sprintf("(%s,%s)", vh.B(o[0]), vh.B(o[1])))
+	}
+	out.Add(fmt.Sprintf("CListen %s %s %s", vh.List(ss), vh.List(evs), vh.List(os2)), class, len(r.events) >= 3 && moved >= 1, desc)
 }
 
 func runConsumer(thorough bool) {
 	lsrv = c2.NewServer(logx.NOP)
 	lsrv.Keys.Fill()
+	startHangup()
 	// the Server is left running until the process exits: Server.Close with several Listeners
 	// deadlocks (each Listener.listen blocks sending its name to the server loop, which is itself
 	// blocked in shutdown() waiting for Listener.Close)
@@ -1174,6 +1260,10 @@ func runConsumer(thorough bool) {
 	runListen([][]*spec{{A(0, 30, 0), Bn(1, 20, selRR), C(2, 10, 0)}}, none, 8, -1, "listen/corpus")
 	runListen([][]*spec{{A(0, 30, 0), Bn(1, 20, selRR), C(2, 10, 0)}}, map[int]bool{3: true}, 8, -1, "listen/corpus")
 	runListen([][]*spec{{C(0, 30, selRand), Bn(1, 20, 0), A(2, 10, 0)}}, map[int]bool{2: true}, 9, -1, "listen/corpus")
+	// exchange failures after a successful Connect (the peer hangs up): last-valid must leave the group
+	runListenX([][]*spec{{A(0, 20, selLV), C(1, 10, 0)}}, none, map[int]bool{1: true, 3: true}, 6, -1, "listen/corpus-exchange-failure")
+	runListenX([][]*spec{{A(0, 30, 0), Bn(1, 20, selSemiLV), C(2, 10, 0)}}, map[int]bool{4: true}, map[int]bool{2: true}, 7, -1, "listen/corpus-exchange-failure")
+	runListenX([][]*spec{{A(0, 20, selRR), Bn(1, 10, 0)}}, none, map[int]bool{2: true}, 6, -1, "listen/corpus-exchange-failure")
 	// a Profile swap to a profile whose heaviest group has no host
 	runListen([][]*spec{{A(0, 20, selRR), C(1, 10, 0)}, {Bn(3, 40, selLV), A(4, 30, 0)}}, map[int]bool{5: true}, 9, 3, "listen/corpus-swap")
 	runListen([][]*spec{{A(0, 20, selLV), Bn(1, 10, 0)}, {C(3, 40, selRR), Bn(4, 30, 0)}}, map[int]bool{1: true}, 8, 2, "listen/corpus-swap")
@@ -1216,11 +1306,17 @@ func runConsumer(thorough bool) {
 				fails[k] = true
 			}
 		}
+		xfails := map[int]bool{}
+		for k := 1; k <= closeAt+1; k++ {
+			if !fails[k] && rng.Intn(6) == 0 {
+				xfails[k] = true
+			}
+		}
 		cl := "listen/" + selName(sels[i%len(sels)])
 		if swapAt >= 0 {
 			cl += "+swap"
 		}
-		runListen(segs, fails, closeAt, swapAt, cl)
+		runListenX(segs, fails, xfails, closeAt, swapAt, cl)
 	}
 	time.Sleep(50 * time.Millisecond)
 	dbg("prepared %d consumer scenarios, %d listeners, %s", len(lscens), len(lkinds), time.Now().Format("15:04:05.000"))
